@@ -39,9 +39,19 @@ ImplOutcome(op, status) == IF \E i \in DOMAIN op.resps : op.resps[i].status = st
 \* ---- C02 (write half): what a handler's response puts on the wire ----
 RespOf(op, status) == CHOOSE r \in SeqToSet(op.resps) : r.status = status
 \* the header values a response value asks for: a scalar header is written once when set, an array header once per
-\* element, an unset optional header not at all; string-typed values are written verbatim
+\* element, an unset optional header not at all; every written value denotes the Go value in the lexical space of
+\* the declared type
 WireVals(done, canon) == IF \E i \in DOMAIN done.hdrVals : done.hdrVals[i].canon = canon
                          THEN (CHOOSE e \in SeqToSet(done.hdrVals) : e.canon = canon).vals ELSE << >>
+\* what a wire value denotes in the lexical space of the header's type (the harness computes every denotation)
+Denotes(type, w) == CASE type = "string" -> w.s
+                      [] type \in IntKinds -> w.i
+                      [] type = "double" -> w.f
+                      [] type = "float" -> w.g
+                      [] type = "bool" -> w.b
+                      [] type = "datetime" -> w.t
+                      [] OTHER -> "?"
+Typed(type) == type \in {"string", "double", "float", "bool", "datetime"} \cup IntKinds
 HeaderWritten(h, v, done) ==
     IF ~HasField(v.f, "headers") THEN TRUE
     ELSE LET hs == FieldOf(v.f, "headers") IN
@@ -52,9 +62,9 @@ HeaderWritten(h, v, done) ==
                   wire  == WireVals(done, h.canon)
               IN IF unset THEN wire = << >>
                  ELSE IF h.array THEN /\ inner.t = "list" /\ Len(wire) = Len(inner.l)
-                                      /\ (h.type = "string" => \A i \in DOMAIN wire : inner.l[i].t = "leaf" /\ wire[i] = inner.l[i].s)
+                                      /\ (Typed(h.type) => \A i \in DOMAIN wire : inner.l[i].t = "leaf" /\ Denotes(h.type, wire[i]) = inner.l[i].s)
                  ELSE /\ Len(wire) = 1
-                      /\ (h.type = "string" => inner.t = "leaf" /\ wire[1] = inner.s)
+                      /\ (Typed(h.type) => inner.t = "leaf" /\ Denotes(h.type, wire[1]) = inner.s)
 WriteOK(resp, v, done) ==
     /\ done.writes = 1
     /\ done.ctype = resp.ctype
